@@ -309,6 +309,88 @@ def run_multiscale(ctx, n):
 
 
 # ---------------------------------------------------------------------------
+# chunks of several MiB: identical bytes, and range faults on them
+# ---------------------------------------------------------------------------
+def check_big_chunk(ctx, case):
+    """One sharded dataset with chunks of 4..9 MiB: HTTP == local, and a
+    short / over-long range reply on the data request is an error."""
+    from neuroglancer_scripts import accessor
+    from neuroglancer_scripts.sharded_file_accessor import ShardedFileAccessor
+    root = ctx.tmpdir("httpb")
+    try:
+        d = os.path.join(root, "ds")
+        cs = case["cs"]
+        info = ds.make_info("uint32", 1, [ds.make_scale(
+            "s0", [cs, cs, 2 * cs], [cs] * 3, "raw",
+            sharding=ds.sharding_dict(1, 1, 0, "raw", case["data_enc"]))])
+        os.makedirs(d)
+        with open(os.path.join(d, "info"), "w") as f:
+            json.dump(info, f)
+        acc = ShardedFileAccessor(d, strategy="on disk")
+        rng = np.random.default_rng(case["seed"])
+        truth = {}
+        for z in (0, 1):
+            cc = (0, cs, 0, cs, z * cs, (z + 1) * cs)
+            truth[cc] = rng.integers(0, 2 ** 32, size=cs ** 3,
+                                     dtype=np.uint32).tobytes()
+            acc.store_chunk(truth[cc], "s0", cc)
+        acc.close()
+        n = 0
+        with httpd.StaticServer(root, rewrite=False) as srv:
+            url = srv.url + "ds"
+            for cc, want in truth.items():
+                def operation():
+                    return accessor.get_accessor_for_url(url).fetch_chunk(
+                        "s0", cc)
+                srv.reset_count()
+                got = operation()
+                if bytes(got) != want:
+                    ctx.fail("%d MiB chunk %s over HTTP differs from the "
+                             "stored bytes" % (len(want) >> 20, cc))
+                log = list(srv.requests)
+                for k in range(len(log)):
+                    if log[k][2] is None:
+                        continue
+                    for kind in ("short_body", "long_200", "500_samelen"):
+                        srv.reset_count()
+                        srv.set_faults([httpd.Fault(k, kind)])
+                        try:
+                            got = operation()
+                        except Exception:       # noqa
+                            got = None
+                        finally:
+                            srv.set_faults([])
+                        n += 1
+                        if got is not None and bytes(got) != want:
+                            ctx.fail("fault %s on request %d (%s, Range %s) "
+                                     "made fetch_chunk return %d bytes that "
+                                     "differ from the %d bytes stored (%d MiB "
+                                     "chunk)" % (kind, k, log[k][1], log[k][2],
+                                                 len(got), len(want),
+                                                 len(want) >> 20))
+        return n
+    finally:
+        ctx.rmtree(root)
+
+
+def run_big_chunk(ctx, n):
+    for k, (cs, enc) in enumerate([(128, "raw"), (104, "raw"),
+                                   (130, "gzip")][:max(1, n)]):
+        case = {"big_chunk": True, "cs": cs, "data_enc": enc,
+                "seed": ctx.seed + k}
+        try:
+            inj = check_big_chunk(ctx, case)
+        except AssertionError as exc:
+            if type(exc).__name__ != "Violation":
+                raise
+            ctx.violations.append({"sub": "big_chunk", "case": case,
+                                   "message": str(exc)})
+            return
+        ctx.evaluations += inj
+        ctx.record(case, True, ["chunk_MiB_%d" % (4 * cs ** 3 >> 20)])
+
+
+# ---------------------------------------------------------------------------
 # faults
 # ---------------------------------------------------------------------------
 PLAIN_FAULTS = ["404", "403", "500", "503", "close_before",
@@ -431,6 +513,8 @@ def run_fault_all(ctx, n):
 
 
 def replay(ctx, case):
+    if case.get("big_chunk"):
+        return check_big_chunk(ctx, case)
     if case.get("multiscale"):
         return check_multiscale(ctx, case)
     if "fault_kind" in case:
@@ -442,6 +526,7 @@ def replay(ctx, case):
 SUBS = [
     Sub("nofault", run_nofault, replay, quick=250, thorough=5000,
         min_per_shard=10),
+    Sub("big_chunk", run_big_chunk, replay, quick=1, thorough=3, shards=1),
     Sub("multiscale", run_multiscale, replay, quick=60, thorough=2000,
         min_per_shard=8),
     Sub("faults", run_fault, replay, quick=400, thorough=10000,
